@@ -519,7 +519,7 @@ func ApplyPrincipalDeviation(t *rapid.T, c *Case, kind string) {
 			return
 		}
 		c.Links[pos].Missing = true
-		c.Links[pos].MissStyle = rapid.IntRange(0, 3).Draw(t, "missstyle")
+		c.Links[pos].MissStyle = rapid.IntRange(0, 7).Draw(t, "missstyle")
 		label = fmt.Sprintf("%s(style%d)@%d/%d", kind, c.Links[pos].MissStyle, pos, n)
 	case "loader-error":
 		if n == 0 {
